@@ -271,22 +271,25 @@ Proof.
   destruct avail as [|a0 av].
   { inversion H; subst. split; [exact G|]. exists [], []. split; [reflexivity|]. split; [right; reflexivity|].
     intros y. cbn. symmetry. apply papp_nil. }
-  assert (STEP : forall s1 a1 e1,
-            ev_meta (evm_fuel (a0 :: av)) s (a0 :: av) = MRet s1 a1 e1 ->
-            (if length a1 <? length (a0 :: av) then mapp HS e1 (drain_meta f s1 a1) else MOut) = MRet s' avail' es ->
+  assert (STEP : forall (s1 : mst) (a1 : list N) (e1 : list effect),
+            ev_meta (evm_fuel HS s (a0 :: av)) s (a0 :: av) = MRet s1 a1 e1 ->
+            (if length a1 <? length (a0 :: av) then mapp HS e1 (drain_meta f s1 a1)
+             else match m_mode s1 with RClosed => MRet s1 [] e1 | _ => MOut end) = MRet s' avail' es ->
             good s' /\ exists c rest, a0 :: av = c ++ rest /\ (m_mode s' = RClosed \/ rest = []) /\
                                      forall y, A s (c ++ y) = papp es (A s' y)).
   { intros s1 a1 e1 E D.
-    destruct (length a1 <? length (a0 :: av)); [|discriminate].
-    apply mapp_ret in D. destruct D as (e2 & D & ->).
     destruct (ev_meta_refines _ _ _ _ _ _ (fun _ => G) E) as [(c1 & Q1 & R1) G1].
-    destruct (IH _ _ _ _ _ G1 D) as [G2 (c2 & rest & Q2 & CL & R2)].
-    split; [exact G2|]. exists (c1 ++ c2), rest. split; [rewrite Q1, Q2, app_assoc; reflexivity|].
-    split; [exact CL|].
-    intros y. rewrite <- app_assoc, R1, R2. apply papp_papp. }
+    destruct (length a1 <? length (a0 :: av)).
+    - apply mapp_ret in D. destruct D as (e2 & D & ->).
+      destruct (IH _ _ _ _ _ G1 D) as [G2 (c2 & rest & Q2 & CL & R2)].
+      split; [exact G2|]. exists (c1 ++ c2), rest. split; [rewrite Q1, Q2, app_assoc; reflexivity|].
+      split; [exact CL|].
+      intros y. rewrite <- app_assoc, R1, R2. apply papp_papp.
+    - destruct (m_mode s1) eqn:M1; try discriminate. inversion D; subst.
+      split; [exact G1|]. exists c1, a1. split; [exact Q1|]. split; [left; exact M1|]. exact R1. }
   destruct (m_mode s) eqn:M.
-  - destruct (ev_meta (evm_fuel (a0 :: av)) s (a0 :: av)) as [s1 a1 e1| |] eqn:E; try discriminate. eapply STEP; eauto.
-  - destruct (ev_meta (evm_fuel (a0 :: av)) s (a0 :: av)) as [s1 a1 e1| |] eqn:E; try discriminate. eapply STEP; eauto.
+  - destruct (ev_meta (evm_fuel HS s (a0 :: av)) s (a0 :: av)) as [s1 a1 e1| |] eqn:E; try discriminate. eapply STEP; eauto.
+  - destruct (ev_meta (evm_fuel HS s (a0 :: av)) s (a0 :: av)) as [s1 a1 e1| |] eqn:E; try discriminate. eapply STEP; eauto.
   - inversion H; subst. split; [exact G|]. exists [], (a0 :: av). split; [reflexivity|]. split; [left; exact M|].
     intros y. cbn. symmetry. apply papp_nil.
 Qed.
@@ -330,7 +333,7 @@ Proof.
     apply (FIN (mk_mst h RIdle [] 0) [] e2); [split; cbn; [rewrite feedx_idle|]; reflexivity| |exact H].
     intros y. cbn [app]. symmetry. apply papp_nil.
   - rewrite <- P in *.
-    destruct (ev_meta (evm_fuel []) (mk_mst h RIdle pre 0) []) as [s0 a0 es0| |] eqn:E; try discriminate.
+    destruct (ev_meta (evm_fuel HS (mk_mst h RIdle pre 0) []) (mk_mst h RIdle pre 0) []) as [s0 a0 es0| |] eqn:E; try discriminate.
     apply mapp_ret in H. destruct H as (e2 & H & ->).
     assert (GC : m_mode (mk_mst h RIdle pre 0) = RClosed -> good (mk_mst h RIdle pre 0)) by (cbn [m_mode]; discriminate).
     destruct (ev_meta_refines _ _ _ _ _ _ GC E) as [(c & Q & R) G0].
